@@ -7,6 +7,100 @@ BASE = json.load(open('/root/.vp/BASELINE.json'))
 
 # property -> (technique, level text, level note, design ref)
 CLAIMED = {
+    'C01': (
+        'Coq engine model (peval/feval) + exhaustive-small and random differential execution against tatsu',
+        'The parser engine (peg/*._parse, contexts/*: frames, cst/ast folding, closures/joins, lookaheads, skip-to, rule calls, '
+        'memo, seeds) is modelled as one fuelled Gallina evaluator; its clean memo-free instance peval IS the documented PEG '
+        'semantics (ordered choice, greedy repetition, pure lookahead, whitespace placement, AST shapes by construction of the '
+        'definitions), proved deterministic and fuel-monotone, and the faithful instance is proved equal to it (C04 theorem). '
+        'The model is tied to the code by differential execution: every expression up to a node budget with every input over '
+        '{a,b,space} up to a length bound (exhaustive) plus random grammars over the whole core language with inputs sampled '
+        'from the grammar; any disagreement is reported with a shrunk replay.',
+        'Trusted: Coq kernel, extraction, harness (IR printers, generators, canonicaliser); oracles from the real Python per case '
+        '(re matches, unicode predicates, resolved ParserConfig, is_lrec/is_memo flags). Hand-written model, agreement with the code '
+        'established by the correspondence only. Not modelled: tracing, error messages, @nostak, EOL, left/right joins, rule includes.',
+        '7 C01'),
+    'C04': (
+        'Coq proof of memo transparency (simulation, strong induction on fuel) + configuration-matrix differential runs',
+        'Theorem C04_memo_transparent (closed under the global context): for every grammar without left-recursive rules, text, '
+        'oracle and EVERY engine configuration (memoization on/off, any capacity incl. 0/1, pruning at cuts on/off, guards on/off) '
+        'the faithful engine returns exactly what the memo-free semantics returns whenever that terminates. The model is tied to '
+        'the code by running model.parse under the configuration matrix {memoization} x {perlinememos} x {prune_memos_on_cut} x '
+        '{parseinfo} x {trace, colorize} and comparing every pair of outcomes with each other and with the model, on left-recursive '
+        'grammars too (implementation-vs-implementation oracle).',
+        'Trusted: as C01. Tracing/colouring are not in the model (checked by the oracle only). The theorem covers non-left-recursive '
+        'grammars; left-recursive ones are covered by the correspondence and oracle.',
+        '7 C04'),
+    'C07': (
+        'Coq proofs over node trees (children, parents, walkers, build/erase) + correspondence on real Node trees + parse oracle',
+        'Unbounded theorems (structural induction over rose trees): children() = exactly the nodes reachable without crossing another '
+        'node, in __pub__ order, each with that parent; depth-first, post-order and breadth-first walkers each visit a permutation of all '
+        'nodes exactly once (orders characterised); erase(build t) = the plain AST value; attributes are the named elements. Tied by '
+        'correspondence on random trees of real Node instances and on real parses (synthesized and generated classes); oracle: '
+        'model-building parse vs plain-AST parse of generated annotated grammars.',
+        'Trusted: Coq kernel, extraction, harness; iteration order of the Python set inside __pub__ enters as an oracle (a permutation). '
+        'Known findings: reserved attribute/class names, first-synthesis-wins registry (see KNOWN_FINDINGS.jsonl).',
+        '7 C07'),
+    'C10': (
+        'Coq state-machine model of the API caches (history independence invariant, schedule independence) + fresh-interpreter replay',
+        'Api.v models compile()/parse() over a heap with the cache key the code uses; proved: for the repaired compile (the code after the '
+        'fix: commits) the result of any call after ANY history equals its result from the initial state (invariant: every cache entry is '
+        'what a fresh compile of its key yields); cached models are never mutated; idempotent caches are schedule independent for every '
+        'interleaving of N threads; refutation witnesses for the shipped cache key are kept. Tied by replaying random API histories '
+        'against fresh interpreters and the model, write-set snapshots around parses, and threads on a shared model under a tiny switch interval.',
+        'Trusted: Coq kernel, extraction, harness, fork/fresh-interpreter runner. Bytecode-level atomicity and real thread schedules are '
+        'sampled, not proved. Known finding: synthesized-class registry keyed by name only.',
+        '7 C10'),
+    'C12': (
+        'Coq proof of the line cache against an independent recursive specification + exhaustive correspondence',
+        'LineCache.v models str.splitlines(keepends), build_line_cache, lineinfo/lineat/poscol/posline for TextLines and Buffer; proved for '
+        'every text and offset: inside the text all accessors equal the specification (line = breaks before pos, col = pos - line start, '
+        'text = that line) for LF, CR, CRLF and the other separators; the behaviour at pos = len is characterised exactly (repaired sentinel '
+        'exact; lineinfo clamps). Correspondence: all strings over {a, space, LF, CR} up to length 5/6 x all offsets x both input classes, '
+        'plus random texts with all separators; oracle: regex-split reference. The parseinfo-of-rules half is covered by the engine '
+        'correspondence with parseinfo on (C01/C04 runs) and by an implementation oracle in this check.',
+        'Trusted: Coq kernel, extraction, harness. Known finding: lineinfo(len).col is the column of the last character (clamp pinned by a shipped test for .line).',
+        '7 C12'),
+    'C14': (
+        'Coq proof of asjson termination on cyclic heaps and of the fromjson round trip + reload oracle (JSON, pickle, model source)',
+        'Json.v models asjson as a DFS over a finite heap with the path-local seen set and fromjson with the class registry and string '
+        'sniffing; proved: asjson terminates on every finite heap (sharing, cycles) with fuel |heap|+1, renders back edges as references and '
+        'yields dumpable data; fromjson(asjson g) = g for grammar-like trees without style-like strings (refutation witnesses f{a and \\e[ '
+        'replayed on the code). Tied by correspondence on random object graphs and generated grammar models; oracle: reload through JSON, '
+        'pickle and generated model source, compared on rules/directives/keywords/pretty and on parses of sampled inputs.',
+        'Trusted: Coq kernel, extraction, harness. Pickle stream and source printer are oracle-only. Known findings: style-like strings, '
+        '__class__ kwparam, unbracketed decorator list in model source.',
+        '7 C14'),
+    'C16': (
+        'Coq proof of exactness of the left-recursion analysis + exhaustive small rule graphs + runtime recursion oracle',
+        'LeftRec.v models nullable/_is_nullable_safe/_callable_rule_ids, the first graph, components by mutual reachability and the leader '
+        'choice; proved for every grammar: left calls are exactly the calls preceded only by nullable elements; detection with left recursion '
+        'off is exact (error iff a rule reaches itself); rules on no cycle stay memoized and unmarked; with the repaired leader choice every '
+        'cycle contains a leader (the shipped choice is refuted by a witness). Tied by correspondence of (is_lrec, is_memo) and GrammarError '
+        'on all 3-rule digraphs / exhaustive small bodies and random graphs; every grammar is parsed on a battery under a recursion/time guard.',
+        'Trusted: Coq kernel, extraction, harness. SCCs are specified, not the DFS of sccutils.py (held by the correspondence). Known finding: '
+        'a cycle hidden behind a call to a rule that can match empty (outside the property guard for detection, inside it for runtime).',
+        '7 C16'),
+    'C17': (
+        'Coq proof over the regenerated builtin table and the expression checker (capability semantics) + audit-hook oracle',
+        'A translator regenerates the interpreter builtin table and the deny list/predicates from safeeval.py on every run; proved: no '
+        'dangerous builtin survives the filter (forallb over the generated table, recompiled each run, so a deny-list regression breaks the '
+        'proof), the checker is sound (names in context, no dunder/reflective attribute, call targets restricted), accepted expressions fire '
+        'no dangerous capability, rejected text is never evaluated and the interpolation loop terminates. Tied by correspondence with '
+        'is_eval_safe on generated expressions and by evaluating accepted expressions under sys.addaudithook directly and through the parser.',
+        'Trusted: Coq kernel, extraction, translator, harness; the capability semantics abstracts eval() (tied only by the audit-hook runs); '
+        'methods of data values are assumed to return data except for the attribute names the checker blocks.',
+        '7 C17'),
+    'C18': (
+        'Coq proof of the submission-window state machine for every schedule + deterministic-executor correspondence',
+        'ParProc.v models executor_pmap/parproc/taskproc; proved for every task list, worker count, mode and schedule (list nat): the loop '
+        'terminates with fuel 2n+2, yields a permutation of the tasks results exactly once each, equals the sequential multiset, never has more '
+        'than 1+workers pending, and a captured exception is exactly one result; the capture decision table is stated outright. Tied by driving '
+        'the real parproc() with a deterministic executor and a schedule-driven as_completed over all schedules for n<=5 (6 thorough), and '
+        'by real thread/process pools (multiset).',
+        'Trusted: Coq kernel, extraction, harness; contract of concurrent.futures.as_completed and the pools. Known finding: a captured '
+        'exception that does not unpickle breaks the process pool.',
+        '7 C18'),
     'C19': (
         'Coq proof (Rle.v, Queue.v) + extracted-model correspondence + impl oracle',
         'Coq theorems, unbounded: rle_decode(rle_encode s)=s for every string; for every interleaving of sends and '
@@ -18,6 +112,16 @@ CLAIMED = {
         'Trusted: Coq kernel, extraction (ExtrOcamlBasic), harness generators; Python re/json/blake2b; record-granularity '
         'abstraction of the file; packet ids assumed distinct. Known findings: payload keys @/__class__, strings starting f{ or \\e[.',
         '7 C19'),
+    'C20': (
+        'Coq proof over the regenerated SGR tables and ANSI_RE scanner + exhaustive/random correspondence with ztyle.Style',
+        'A translator re-reads ANSI_RE/SGR_RE and the attribute->SGR table from the source; proved for every ESC-free text and every style '
+        '(16/256/RGB colours, every modifier subset): descape(apply_style st text) = text; descape(apply st text spec) = format(text, spec) '
+        'and the visible length is its length; with colour disabled no escape is emitted; the SGR parameter list parses back to the same '
+        'attributes; the Color.enabled priority table; repr/from_raw round trip partially (witnesses for the failing classes). Tied by '
+        'correspondence of descape, apply_style, format and from_raw against the real classes.',
+        'Trusted: Coq kernel, extraction, translator, harness. Display width is code-point count in the code and the model. Known findings: '
+        'repr/from_raw on backslash-e text, non-printable characters and empty text.',
+        '7 C20'),
 }
 
 NOT_YET = {}
